@@ -40,7 +40,7 @@ CHECKS["C07"] = dict(
     technique="property-based testing (Hypothesis): probability-integral / Rosenblatt transform of generated samples judged by distribution-free DKW and Hoeffding bounds; seeding metamorphic relations",
     text="Generated families (12) and 2-4-D hierarchical models with all dependence structures; sample sizes 1..2e5 (quick) / 1e6 (thorough); random_state None/int/Generator. "
          "The harness' own Rosenblatt transform (from the spec) of each sample must be uniform (DKW, error prob 1e-12), also on the halves split at the conditioner's median, "
-         "and pairwise independent; shapes, support and all seeding relations are asserted. Exploration level; statistical statements hold up to the DKW resolution at the drawn n.",
+         "and pairwise independent; shapes, support and all seeding relations are asserted; joint samples of 250000 .. 1e6 rows (both tiers) must not repeat rows (distinct-row count against the harness' own reference sample). Exploration level; statistical statements hold up to the DKW resolution at the drawn n.",
     note="Reference cdfs from vp/oracles/formulas.py (decided against virocon by C05); von Mises compared modulo 2 pi against a quadrature table.",
     design="7/C07",
 )
@@ -58,7 +58,7 @@ CHECKS["C10"] = dict(
     text="Exhaustive: every data vector of length <= 3 (quick) / <= 4 and a length-5 sub-lattice (thorough) over edge-hitting lattices for widths 1, 0.5, 0.1, 0.3, 0.7, in all orders, "
          "times the full option product of WidthOfIntervalSlicer, NumberOfIntervalsSlicer and PointsPerIntervalSlicer (millions of slicer calls). Random: vectors of 50-20000 rounded, tied, "
          "shuffled values with generated options. Oracle: exactly-one membership inside the covered range, mask alignment with input positions (order equivariance), members within non-overlapping "
-         "contiguous boundaries, documented references, drop rule == filtering of the unfiltered result, RuntimeError iff too few intervals, documented PPI blocks and midpoint boundaries.",
+         "contiguous boundaries, documented references, drop rule == filtering of the unfiltered result, RuntimeError iff too few intervals, documented PPI blocks and midpoint boundaries; history: a slicer instance that sliced other (calmer / wilder / lower-half) data before gives exactly what a fresh slicer gives.",
     note="Assignment of a value within 1e-9*width of an interior edge to either neighbour is accepted (not fixed by the property); exhaustive only over the stated lattice.",
     design="7/C10",
 )
@@ -91,7 +91,7 @@ CHECKS["C12"] = dict(
 )
 CHECKS["C14"] = dict(
     technique="property-based testing (Hypothesis): invariant oracles (bounds, constraints, objective dominance over start and 64 admissible perturbations, numpy lstsq for linear shapes) and generated fit histories compared with a dependency-order reference",
-    text="Single fits: generated shape, data, bounds of all kinds, inequality constraints (dict/list, active/inactive), optional weights callable and start values; fitted parameters must respect bounds "
+    text="Single fits: generated shape, data, bounds of all kinds (none, one-/two-sided, active lower, active upper, active at exactly 0 with the other side None), inequality constraints (dict/list, active/inactive), optional weights callable and start values; fitted parameters must respect bounds "
          "and constraints and be no worse than the start or nearby admissible points for the harness' own (weighted) squared residual; linear shapes must reach the numpy least-squares objective. "
          "Histories: chains of 2-3 dependence functions declared in any order and fitted once per round in any order for 1-3 rounds; final parameters equal fresh copies fitted in dependency order. "
          "Three recorded known findings (inverse weighting via curve_fit sigma; re-fit start values depend on call order on multi-modal objectives; SLSQP stalls / returns start values) with incidence limits.",
@@ -109,7 +109,7 @@ CHECKS["C09"] = dict(
 )
 CHECKS["C02"] = dict(
     technique="property-based testing (Hypothesis): validity predicate on the region reconstructed from public outputs with independently computed cell probabilities; differential for the cell-averaged pdf; model-free properties of the public cumsum helper",
-    text="Generated 2-D/3-D models, alpha in [1e-6,0.3], explicit/default limits (reachable and not reachable), scalar / per-dimension / anisotropic deltas, 10-400 cells per axis. Region = cells with "
+    text="Generated 2-D/3-D models, alpha in [1e-6,0.3], explicit/default limits (reachable and not reachable), scalar / per-dimension / anisotropic deltas, float- and all-integer-typed grids, 10-400 cells per axis. Region = cells with "
          "density >= fm (tolerance set for ties), cell probabilities = products of conditional cdf differences computed by the harness from the spec: content <= 1-alpha and within one (densest excluded) "
          "cell of it, fm is a cell density, RuntimeWarning iff the grid holds < 1-alpha (then whole grid, fm=0), grid built from limits/deltas as documented, cell_averaged_joint_pdf equals the harness "
          "probabilities. cumsum_biggest_until: selected sum <= limit, maximal, selected >= unselected, last_summed, warning, input untouched, on random arrays with ties.",
@@ -126,7 +126,7 @@ CHECKS["C15"] = dict(
 )
 CHECKS["C03"] = dict(
     technique="property-based testing (Hypothesis): validity predicate on every polygon edge (quantile bracket of the projected sample on a direction grid) computed from coordinates and sample only",
-    text="Generated 2-D samples (model samples via the harness' inverse Rosenblatt; cluster mixtures, heavy tails, integer lattices with ties, nearly collinear clouds; 50-50000 points), alpha in "
+    text="Generated 2-D samples (model samples via the harness' inverse Rosenblatt; cluster mixtures, heavy tails, integer lattices with ties (float- and integer-typed arrays), nearly collinear clouds; 50-50000 points), alpha in "
          "[1e-4,0.3], all 19 divisors of 360 in [1,60] plus 5 fractional steps; and sample=None. Exactly 360/deg_step vertices; a single phase and rotation sense exist such that every edge incl. the "
          "closing one lies on the tangent line of its grid direction with offset between the (k-1)th and (k+1)th order statistic, k=ceil((1-alpha)N); sample untouched; int(100/alpha) points drawn without sample.",
     note="Tolerance 1e-9*max|sample|; the quantile definition is left open (bracket of neighbouring order statistics).",
